@@ -121,6 +121,7 @@ class Frame_:
         self.fi, self.env, self.self_term, self.self_cls = fi, env, self_term, self_cls
         self.base_len, self.depth, self.stack = base_len, depth, stack
         self.returns = []
+        self.ret_heaps = []       # (condition relative to the frame, heap at that `return`)
         self.yields = []
 
 
@@ -199,6 +200,13 @@ class Interp:
                 live = self.exec_block(body, fr)
         finally:
             self.frames.pop()
+        # the state the caller continues with is the state at WHICHEVER exit was taken: merge the heaps recorded at the
+        # early returns with the fall-through heap (a helper that returns early leaves the attributes untouched on that path)
+        if fr.ret_heaps:
+            merged = self.heap if live.key != FALSE.key else None
+            for c, h in reversed(fr.ret_heaps):
+                merged = h if merged is None else self._merge(c, h, merged)
+            self.heap = merged
         rets = list(fr.returns)
         if live.key != FALSE.key:
             rets.append((live, NONE))
@@ -338,6 +346,8 @@ class Interp:
         v = self.ev(st.value, fr) if st.value is not None else NONE
         rel = T.mk_and(self.pc[fr.base_len:])
         fr.returns.append((rel, v))
+        if not isinstance(fr.fi.node, ast.Lambda):
+            fr.ret_heaps.append((rel, dict(self.heap)))
         self.emit('return', st, fr, value=v)
         return FALSE
 
